@@ -271,9 +271,18 @@ func c15ThoroughShapes() []c15Shape {
 
 type c15Pair struct{ A, B c15Shape }
 
+// c15Pairs lists the shape pairs family by family (basic x basic, late frames,
+// message pieces, CONTINUATION chains, thorough shapes) and then merges the families
+// proportionally, so that a budget that ends the enumeration early (a loaded machine)
+// cuts the tail of every family instead of dropping the last families altogether.
 func c15Pairs(thorough bool) []c15Pair {
 	q := c15QuickShapes()
 	var pairs []c15Pair
+	var families [][]c15Pair
+	endFamily := func() {
+		families = append(families, pairs)
+		pairs = nil
+	}
 	seen := map[string]bool{}
 	add := func(a, b c15Shape) {
 		if a.Variant == "goaway" || a.Variant == "goaway-late" { // GOAWAY(last-stream-id 1) is part of the script of stream 3
@@ -291,6 +300,7 @@ func c15Pairs(thorough bool) []c15Pair {
 			add(a, b)
 		}
 	}
+	endFamily()
 	// late frames for a stream that is gone: every late shape with every late partner (both
 	// orders), and the late shapes with each other
 	late := c15LateShapes(thorough)
@@ -300,13 +310,14 @@ func c15Pairs(thorough bool) []c15Pair {
 			add(y, x)
 		}
 	}
-	for xi, x := range late {
+	for xi, x := range late { // quick: the first three with each other; thorough: every late shape with the four quick ones
 		for yi, y := range late {
-			if thorough || (xi < 3 && yi < 3) {
+			if (xi < 3 && yi < 3) || (thorough && (xi < 4 || yi < 4)) {
 				add(x, y)
 			}
 		}
 	}
+	endFamily()
 	// one message in 3 and 4 DATA frames
 	wide, narrow := c15PieceShapes(thorough)
 	pp := c15PiecePartners()
@@ -328,6 +339,7 @@ func c15Pairs(thorough bool) []c15Pair {
 		add(late[0], wide[1])
 		add(wide[0], late[2])
 	}
+	endFamily()
 	// header blocks of 3 and 4 fragments: every chain shape with every partner (both
 	// orders); the quick chain shapes with each other, the thorough-only ones with two of them
 	qc := c15ChainShapes(false)
@@ -344,6 +356,7 @@ func c15Pairs(thorough bool) []c15Pair {
 			add(y, x)
 		}
 	}
+	endFamily()
 	if thorough {
 		t := c15ThoroughShapes()
 		for _, x := range t {
@@ -352,8 +365,26 @@ func c15Pairs(thorough bool) []c15Pair {
 				add(y, x)
 			}
 		}
+		endFamily()
 	}
-	return pairs
+	// proportional merge: always continue the family of which the smallest fraction has been taken
+	pos := make([]int, len(families))
+	for {
+		best := -1
+		for f := range families {
+			if pos[f] == len(families[f]) {
+				continue
+			}
+			if best < 0 || pos[f]*len(families[best]) < pos[best]*len(families[f]) {
+				best = f
+			}
+		}
+		if best < 0 {
+			return pairs
+		}
+		pairs = append(pairs, families[best][pos[best]])
+		pos[best]++
+	}
 }
 
 // ---------------------------------------------------------------------------
